@@ -366,4 +366,15 @@ def judge(nat):
     return ("satisfies", "as specified") if nat["value"].get("ok") else ("violates", str(nat["value"])[:400])
 
 
+NATIVE_STANDINS = [
+    {"name": "every string of a finite set is refused or is a spelling whose canonical text is stable; the statement's refusal list is refused",
+     "where": "periods.helpers.period on arbitrary strings",
+     "bound": "the printed forms of 9 starts x 5 units x sizes {1,2,3,12,24} plus 8 hand-picked texts (quick: every third), all their single-character "
+              "insertions / deletions / substitutions over the alphabet '0123456789-:Wdwy ', and every string of length <= 4 over '0129-:W' "
+              "(39 197 strings quick, 120 716 thorough); an independent classifier decides which must be refused",
+     "calls": lambda tier: [{"callee": "periods.period", "script": NATIVE, "mode": "strings", "tier": tier}],
+     "judge": lambda nat: judge(nat)},
+]
+
+
 CONTRACTS = [PeriodOfText(), ParsePrintedInstant(), PrintInjective()]
